@@ -14,6 +14,7 @@ LEVEL_TEXT = ("Static structural proof of necessary conditions: (R2.1) the set o
               "exception that is caught, and PARENTHESES_MISMATCH is registered and reachable from string validation. "
               "Implicit exceptions (index/attribute/type errors from values), the tokenizer's span arithmetic, nesting = "
               "parenthesis nesting and print/re-parse equality are NOT decided.")
+LEVEL_EXTRA = 'Added after the seeded evaluation: (R2.3) every printer of a group visits every child, unfiltered; (R2.4) nothing returns before the parenthesis-count check.'
 
 
 def exc_name(node):
